@@ -76,6 +76,8 @@ var c18Sections = map[string][]c18Variant{
 		{"load_balancer:\n  strategy: \"round_robin\"\n  websocket_pool:\n    enabled: true\n    max_idle: 10\n    max_active: 100\n    idle_timeout_seconds: 300\n", true, "pool documented", false},
 		{"load_balancer:\n  strategy: \"round_robin\"\n  websocket_pool:\n    enabled: true\n    max_idle: 0\n    max_active: 0\n    idle_timeout_seconds: 0\n", true, "pool zeros", false},
 		{"load_balancer:\n  strategy: \"round_robin\"\n  websocket_pool:\n    enabled: true\n    max_idle: 5\n    max_active: 5\n", true, "pool idle == active", false},
+		{"load_balancer:\n  strategy: \"round_robin\"\n  websocket_pool:\n    enabled: true\n    max_idle: 5\n    max_active: 0\n    idle_timeout_seconds: 60\n", true, "pool max_active 0 (unlimited) with max_idle 5", false},
+		{"load_balancer:\n  strategy: \"ip_hash\"\n  websocket_pool:\n    enabled: true\n    max_idle: 1\n", true, "pool max_active omitted with max_idle 1", false},
 		{"load_balancer:\n  strategy: \"round_robin\"\n  websocket_pool:\n    enabled: false\n    max_idle: -5\n", true, "pool disabled, values ignored", false},
 		{"load_balancer:\n  websocket_pool:\n    enabled: true\n    max_idle: 2\n    max_active: 4\n    idle_timeout_seconds: 30\n", true, "pool valid, strategy omitted", false},
 		{"load_balancer:\n  websocket_pool:\n    enabled: true\n    max_idle: -1\n", false, "pool negative max_idle, strategy omitted", false},
@@ -662,6 +664,12 @@ func c18BinOnce(e *vh.Env, c c18Bin, o *vh.Out) bool {
 		code := 0
 		if ee, ok := exitErr.(*exec.ExitError); ok {
 			code = ee.ExitCode()
+		}
+		if !expectFail && strings.Contains(out, "address already in use") {
+			// a port the harness had picked as free was taken by another process before the binary bound it:
+			// the caller tries again with fresh ports
+			o.Obs("binary_runs_repeated_after_losing_a_port", 1)
+			return true
 		}
 		if !expectFail {
 			o.Viol("C18|binary|accepted-config-exited", fmt.Sprintf("%s: an accepted configuration exited with code %d: %s", ctx, code, trunc(out, 400)), map[string]any{"config": string(data)})
